@@ -650,6 +650,20 @@ class Calls:
                 self.call_function(init, [obj] + args, kwargs, node, fr)
                 e.obj = obj  # type: ignore
             return e
+        own_new = cls.methods.get("__new__")
+        if own_new is not None and cls.find_method("__init__") is None and len(args) + len(kwargs) == 1 \
+                and len(own_new.params) == 2:
+            # a "tagging" class (``def __new__(cls, x): return cast(Cls, x)``): the value is its argument; the
+            # @require of __new__ is a call-site obligation
+            body = [st for st in own_new.node.body if not (isinstance(st, ast.Expr) and isinstance(st.value, ast.Constant))]
+            ret = body[0].value if len(body) == 1 and isinstance(body[0], ast.Return) else None
+            pname = own_new.params[1].arg
+            if isinstance(ret, ast.Call) and getattr(ret.func, "id", "") == "cast" and len(ret.args) == 2 \
+                    and isinstance(ret.args[1], ast.Name) and ret.args[1].id == pname:
+                val = args[0] if args else next(iter(kwargs.values()))
+                if not fr.in_spec:
+                    self.check_requires(own_new, {pname: val}, node, fr)
+                return val
         init = cls.find_method("__init__")
         if init is not None:
             ic = self.engine.contract_for(init.qualname)
